@@ -268,6 +268,20 @@ def run(ctx):
     ctx.extra["traces_validated_against_impl"] = ntr
     ctx.extra["correspondence_disagreements"] = len(dis)
     shutil.rmtree(wd, ignore_errors=True)
+    # downgrade rule of DESIGN 2.2 for the wisdom translator: when translate/wisdom2coq.py no longer recognises prepareFFT (a
+    # restructuring outside its narrow idiom) but the machine extracted from the LAST-GOOD table agrees with the binary on every run of
+    # every history of this check, every oracle holds and nothing else is broken, the wisdom clause is shown through tie 2 and the
+    # downgrade is recorded
+    failed = [g for g, st in coq["gen"].items() if st.startswith("failed")]
+    kf = load_known()
+    unlisted = [v for v in ctx.violations if match_known(kf, v) is None]
+    nwis = ctx.dist.get("wisdom:history-run-against-model", 0)
+    if failed == ["Gen_Wisdom"] and coq["make_ok"] and coq["props"]["ok"] and not coq["forbidden"] and coq["extract_ok"] \
+            and not dis and not unlisted and nwis > 0:
+        ctx.extra["translators"]["Gen_Wisdom"] = "downgraded-to-correspondence (" + coq["gen"]["Gen_Wisdom"][:200] + ")"
+        ctx.notes.append("Gen_Wisdom: translator failed; the machine over the last-good prepareFFT table agrees with the binary on all %d runs of the "
+                         "wisdom histories and every oracle holds: downgraded to tie 2" % nwis)
+        coq = dict(coq, ok=True)
     conclude(ctx, coq, dis)
 
 
